@@ -3,8 +3,9 @@
     H <keep> <val>                     -> canonical form of `mkHashable keep val`
     EQ <keep> <val> | <val>            -> "<keys equal 0/1> <sameKind 0/1>"
     K <service> <site> <val>*          -> does the key match the regenerated shape of that call site? 0/1/?
-    O <8 cfg bits> <M> <seed> <x> <T|-> ; op ; op …   -> "<outputs of the code model> | <outputs of the fresh twin>"
-    C <hamDeg 0/1/2> <bit> <M> <seed> <d> ; op ; …    -> same for the centre manifold
+                                          (site `*`: of some site of the service — keys built by setters for `reset`)
+    O <9 cfg bits> <M> <seed> <x> <T|-> ; op ; op …   -> "<outputs of the code model> | <outputs of the fresh twin>", each `<out>@<state>,<period>` (public state after the op)
+    C <hamDeg 0/1/2> <bit> <bit> <seed> <d> ; op ; …    -> same for the centre manifold
   values:  n | i<nat> | s<text> | t<k> v1 … vk | l<k> v1 … vk | d<k> k1 v1 … kk vk
 -/
 import HitenModel.Core.C20
@@ -107,6 +108,35 @@ def mkCOracle (seed : Nat) : COracle where
   hsys p := mix 1000003 seed 13 [p]
   map n e := mix 1000003 seed 14 [n, e]
 
+def showOpt : Option Nat → String
+  | none => "-"
+  | some n => toString n
+
+/-- outputs augmented with the public state after the operation: `<out>@<state>,<period>` -/
+def runO' (cfg : Cfg) (O : Oracle) : OState → List OOp → List String
+  | _, [] => []
+  | s, op :: ops =>
+    let r := stepO cfg O s op
+    (showOut r.2 ++ "@" ++ toString r.1.x ++ "," ++ showOpt r.1.T) :: runO' cfg O r.1 ops
+
+def runL' (O : Oracle) : OLog → List OOp → List String
+  | _, [] => []
+  | l, op :: ops =>
+    let r := stepL O l op
+    (showOut r.2 ++ "@" ++ toString r.1.x ++ "," ++ showOpt r.1.T) :: runL' O r.1 ops
+
+def runC' (cfg : CCfg) (O : COracle) : CState → List COp → List String
+  | _, [] => []
+  | s, op :: ops =>
+    let r := stepC cfg O s op
+    (showOut r.2 ++ "@" ++ toString r.1.d) :: runC' cfg O r.1 ops
+
+def runCL' (cfg : CCfg) (O : COracle) : Nat → List COp → List String
+  | _, [] => []
+  | d, op :: ops =>
+    let r := stepCL cfg O d op
+    (showOut r.2 ++ "@" ++ toString r.1) :: runCL' cfg O r.1 ops
+
 def optNat (s : String) : Option (Option Nat) := if s == "-" then some none else s.toNat?.map some
 
 def parseOOp (toks : List String) : Option OOp :=
@@ -164,34 +194,35 @@ def handle (line : String) : String :=
       match HitenModel.Gen.C20.services.find? (·.1 == svc) with
       | none => "?service"
       | some (_, sites) =>
-        match sites.find? (·.1 == site) with
+        if site == "*" then (if sites.any (fun p => matchesKey p.2 key) then "1" else "0")
+        else match sites.find? (·.1 == site) with
         | none => "?site"
         | some (_, pat) => if matchesKey pat key then "1" else "0"
-  | "O" :: b1 :: b2 :: b3 :: b4 :: b5 :: b6 :: b7 :: b8 :: m :: seed :: x :: t :: rest =>
+  | "O" :: b1 :: b2 :: b3 :: b4 :: b5 :: b6 :: b7 :: b8 :: b9 :: m :: seed :: x :: t :: rest =>
     match m.toNat?, seed.toNat?, x.toNat?, optNat t with
     | some M, some sd, some x, some T =>
-      let cfg : Cfg := ⟨bit b1, bit b2, bit b3, bit b4, bit b5, bit b6, bit b7, bit b8⟩
+      let cfg : Cfg := ⟨bit b1, bit b2, bit b3, bit b4, bit b5, bit b6, bit b7, bit b8, bit b9⟩
       let opsS := (String.intercalate " " rest).splitOn ";" |>.map words |>.filter (· ≠ [])
       match opsS.mapM parseOOp with
       | none => "?op"
       | some ops =>
         let O := mkOracle M sd
-        let a := runO cfg O (freshO x T) ops
-        let b := runL O (freshL x T) ops
-        String.intercalate " " (a.map showOut) ++ " | " ++ String.intercalate " " (b.map showOut)
+        let a := runO' cfg O (freshO x T) ops
+        let b := runL' O (freshL x T) ops
+        String.intercalate " " a ++ " | " ++ String.intercalate " " b
     | _, _, _, _ => "?args"
-  | "C" :: hd :: b :: seed :: d :: rest =>
+  | "C" :: hd :: b :: b2 :: seed :: d :: rest =>
     match hd.toNat?, seed.toNat?, d.toNat? with
     | some h, some sd, some d =>
-      let cfg : CCfg := ⟨match h with | 0 => .never | 1 => .onMiss | _ => .always, bit b⟩
+      let cfg : CCfg := ⟨match h with | 0 => .never | 1 => .onMiss | _ => .always, bit b, bit b2⟩
       let opsS := (String.intercalate " " rest).splitOn ";" |>.map words |>.filter (· ≠ [])
       match opsS.mapM parseCOp with
       | none => "?op"
       | some ops =>
         let O := mkCOracle sd
-        let a := runC cfg O (freshC d) ops
-        let b := runCL cfg O d ops
-        String.intercalate " " (a.map showOut) ++ " | " ++ String.intercalate " " (b.map showOut)
+        let a := runC' cfg O (freshC d) ops
+        let b := runCL' cfg O d ops
+        String.intercalate " " a ++ " | " ++ String.intercalate " " b
     | _, _, _ => "?args"
   | [] => ""
   | _ => "?cmd"
